@@ -26,7 +26,7 @@ RULE = ('fault enumeration: write sequences of <=12 writes over <=4 files x maxH
 ASSUMPTIONS = ['faults are injected at the open() boundary of the handlelimiter module only; write()/close() of an open handle do not fail',
                'a write() may raise only if an open failed while no other handle of the limiter was live; data of such a write may be absent',
                'gzip and the file system are trusted']
-MIN_NONTRIVIAL = {'quick': 400, 'thorough': 10000}
+MIN_NONTRIVIAL = {'quick': 400, 'thorough': 20000}
 REQUIRED_MONITORS = ['inj:open_attempts', 'inj:faults_fired', 'hist:writes', 'oracle:files_compared', 'inj:emfile_fired',
                      'inj:transient_fired', 'inj:permanent_fired', 'reopen_append', 'rlimit:real_emfile_seen', 'split:bams_compared']
 EXHAUSTIVE = {'quick': False, 'thorough': True}
@@ -191,10 +191,10 @@ def decide(acc, seq, settings, plan, inj, hist, raised, contents, err, d):
 
 def gen_cases(tier, seed):
     cases = []
-    n_enum = 40 if tier == 'quick' else 400
+    n_enum = 40 if tier == 'quick' else 1500
     for i in range(n_enum):
         cases.append({'kind': 'enum', 'i': i, 'seed': seed, 'pairs': tier == 'thorough' or i % 4 == 0})
-    for i in range(32 if tier == 'quick' else 320):
+    for i in range(32 if tier == 'quick' else 1500):
         cases.append({'kind': 'random', 'i': i, 'seed': seed})
     for i in range(2 if tier == 'quick' else 8):
         cases.append({'kind': 'rlimit', 'i': i, 'seed': seed})
@@ -236,7 +236,7 @@ def run_case(case):
                 if r.random() < 0.7:
                     p['emfile_k'] = r.choice([1, 2, 3, 5, 10, 30])
                 if r.random() < 0.6:
-                    p['transient'] = set(r.sample(range(0, 2 * nw), r.randint(1, 6)))
+                    p['transient'] = set(r.sample(range(0, 2 * nw), min(2 * nw, r.randint(1, 6))))
                 if r.random() < 0.15:
                     p['permanent'] = r.choice(files)
                 plans.append(p)
